@@ -77,46 +77,59 @@ def r03_1_2(ctx, run, rule1='R03.1', rule2='R03.2'):
                 continue
             arms += 1
             escaped = escaped.union(rng)
-            # R03.2: the escape string denotes the byte
+            # R03.2: the pushed escape, read as one token sequence (it may be pushed in pieces), denotes the byte
+            def hexdigit(x):
+                """'H' / 'L' if the term is HEXTABLE[(b >> 4)] / HEXTABLE[(b & 15)] (possibly cast to char), else None"""
+                x = strip_casts(deref_all(x))
+                if x[0] == 'deref':
+                    x = strip_casts(deref_all(x[1]))
+                if x[0] != 'index':
+                    return None
+                tv = const_of(deref_all(x[1]))
+                if not (isinstance(tv, tuple) and bytes(tv).lower() == b'0123456789abcdef'):
+                    return None
+                ix = strip_casts(x[2])
+                if ix[0] == 'bin' and ix[1] == 'Shr' and const_of(ix[3]) == 4 and strip_casts(deref_all(ix[2])) == strip_casts(atom):
+                    return 'H'
+                if ix[0] == 'bin' and ix[1] == 'BitAnd' and const_of(ix[3]) == 15 and strip_casts(deref_all(ix[2])) == strip_casts(atom):
+                    return 'L'
+                return None
+            toks = []
             for kind, t, e in escapes:
                 if t[0] == 'const' and isinstance(t[1], str):
-                    s = t[1]
-                    ok = False
-                    if len(rng.ivs) == 1 and rng.lo() == rng.hi():
-                        v = rng.lo()
-                        ok = s == SHORT.get(v) or s.lower() == '\\u%04x' % v
-                    if not ok:
-                        string_problems.append(f'bytes {rng} are written as the constant {s!r}')
+                    toks += list(t[1])
+                elif t[0] == 'const' and isinstance(t[1], int) and not isinstance(t[1], bool):
+                    toks.append(chr(t[1]))
+                elif hexdigit(t):
+                    toks.append(hexdigit(t))
                 elif any(x[0] == 'agg' and x[1] == 'array' and len(x[2]) == 6 for x in subterms(t)):
-                    # escape assembled in a 6-byte array: ['\\', 'u', '0', '0', HEX[b >> 4], HEX[b & 15]]
                     arr = [x for x in subterms(t) if x[0] == 'agg' and x[1] == 'array' and len(x[2]) == 6][0][2]
-                    head = [const_of(x) for x in arr[:4]]
-                    def hexdigit(x, hi):
-                        x = deref_all(x)
-                        if x[0] != 'index':
-                            return False
-                        tab = deref_all(x[1])
-                        tv = const_of(tab)
-                        if not (isinstance(tv, tuple) and bytes(tv).lower() == b'0123456789abcdef'):
-                            return False
-                        ix = strip_casts(x[2])
-                        if hi:
-                            return ix[0] == 'bin' and ix[1] == 'Shr' and const_of(ix[3]) == 4 and strip_casts(deref_all(ix[2])) == strip_casts(atom)
-                        return ix[0] == 'bin' and ix[1] == 'BitAnd' and const_of(ix[3]) == 15 and strip_casts(deref_all(ix[2])) == strip_casts(atom)
-                    if head == [0x5C, ord('u'), ord('0'), ord('0')] and hexdigit(arr[4], True) and hexdigit(arr[5], False):
-                        pass
-                    elif head == [0x5C, ord('u'), ord('0'), ord('0')] and rng.hi() <= 0xFF:
-                        string_unknown.append(f'bytes {rng}: the hex digits of the \\u00XX escape are computed in a way this rule does not read')
-                    else:
-                        string_problems.append(f'bytes {rng} are written as a 6-byte escape starting {head}, not `\\u00`')
+                    for x in arr:
+                        cvv = const_of(x)
+                        toks.append(chr(cvv) if isinstance(cvv, int) else (hexdigit(x) or '?'))
                 else:
                     # formatted escape: must be built from a template containing `\u` and the byte itself in hex
                     tmpl = [x for x in subterms(t) if x[0] == 'const' and (isinstance(x[1], tuple) or isinstance(x[1], str))]
                     has_u = any((isinstance(x[1], tuple) and b'\\u' in bytes(v for v in x[1] if isinstance(v, int) and v < 256)) or (isinstance(x[1], str) and '\\u' in x[1]) for x in tmpl)
                     hexarg = any(is_call(x, 'Argument::new_lower_hex', 'Argument::new_upper_hex') and x[2] and deref_all(x[2][0]) == atom for x in subterms(t))
-                    if not (has_u and hexarg):
-                        string_problems.append(f'bytes {rng} are written as {show(t)[:80]}, which is not `\\u` followed by the hex value of the byte')
-            # R03.2b: pending ordinary bytes are flushed before the escape, the run restarts after the escaped byte
+                    if has_u and hexarg:
+                        toks += list('\\u00') + ['H', 'L']
+                    else:
+                        toks.append('?')
+            if all(len(x) == 1 and x not in 'HL?' or x in ('H', 'L', '?') for x in toks) and not any(x in ('H', 'L', '?') for x in toks):
+                sj = ''.join(toks)
+                ok = False
+                if len(rng.ivs) == 1 and rng.lo() == rng.hi():
+                    v = rng.lo()
+                    ok = sj == SHORT.get(v) or sj.lower() == '\\u%04x' % v
+                if not ok:
+                    string_problems.append(f'bytes {rng} are written as the constant {sj!r}')
+            elif toks == list('\\u00') + ['H', 'L'] and rng.hi() <= 0xFF:
+                pass
+            elif '?' in toks:
+                string_unknown.append(f'bytes {rng}: the escape is assembled in a way this rule does not read')
+            else:
+                string_problems.append(f'bytes {rng} are written as {"".join(toks)!r} (H/L = high/low hex digit of the byte), which is not `\\u00` followed by the two hex digits of the byte')
             # a path either writes the pending run before the escape, or has compared the run start (a loop-carried local)
             # with the current position and found the run empty
             cmp_ = [c for c in p.conds if c[0][0] == 'bin' and c[0][1] in ('Gt', 'Lt', 'Ge', 'Le', 'Ne', 'Eq') and any(s[0] == 'hav' for s in subterms(c[0]))
@@ -241,7 +254,32 @@ def r03_3(ctx, run, rule='R03.3'):
             for s in subterms(p.ret):
                 if s[0] == 'call' and 'from_elem' in s[1] and s[2] and const_of(s[2][0]) == 0x20:
                     ok = True
-    (run.proved if ok else run.violation)('R03.6', gi.path, 'indent-char', 'indentation is a run of U+0020' if ok else 'the indentation string is not built from spaces only', f'{gi.file}:{gi.line}')
+    bad_char = False
+    const_run = None
+    for p in ps:
+        if p.end[0] == 'return':
+            for s_ in subterms(p.ret):
+                if s_[0] == 'call' and canon(s_[1]).split('::')[-1] == 'repeat' and s_[2]:
+                    cs_ = const_of(deref_all(s_[2][0]))
+                    if isinstance(cs_, str) and cs_ and set(cs_) == {' '}:
+                        ok = True
+                    elif isinstance(cs_, str):
+                        bad_char = True
+                if s_[0] == 'const' and isinstance(s_[1], str) and s_[1] and set(s_[1]) == {' '} and len(s_[1]) > 1:
+                    const_run = len(s_[1])
+                if s_[0] == 'const' and isinstance(s_[1], tuple) and len(s_[1]) > 1 and all(x == 0x20 for x in s_[1]):
+                    const_run = len(s_[1])
+                if s_[0] == 'call' and 'from_elem' in s_[1] and s_[2] and const_of(s_[2][0]) not in (None, 0x20):
+                    bad_char = True
+    if const_run:
+        run.violation('R03.6', gi.path, 'indent-char', f'the indentation is cut out of a constant run of {const_run} spaces: the indent grows by two per nesting level without bound, so beyond '
+                      f'{const_run // 2} levels the lines are mis-indented (capped) or the slice is out of range', f'{gi.file}:{gi.line}')
+    elif ok and not bad_char:
+        run.proved('R03.6', gi.path, 'indent-char', 'indentation is a run of U+0020', f'{gi.file}:{gi.line}')
+    elif bad_char:
+        run.violation('R03.6', gi.path, 'indent-char', 'the indentation string is not built from spaces only', f'{gi.file}:{gi.line}')
+    else:
+        run.undecided('R03.6', gi.path, 'indent-char', 'the indentation string is built in a way this rule does not read', f'{gi.file}:{gi.line}')
     ps, _ = explore(ii)
     ok = False
     for p in ps:
